@@ -479,6 +479,7 @@ func checkPipe(c *Ctx, f *Func, v types.Object, name string) {
 		expr ast.Expr
 		last string
 		wg   string
+		ctx  string
 	}
 	var senders []senderChain
 	seenExpr := map[ast.Expr]bool{}
@@ -501,10 +502,10 @@ func checkPipe(c *Ctx, f *Func, v types.Object, name string) {
 				if call, isCall := ast.Unparen(expr).(*ast.CallExpr); isCall {
 					sc.last = selName(call)
 					if sc.last == "Add" && len(call.Args) == 2 {
-						sc.wg = exprStr(call.Args[1])
+						sc.wg, sc.ctx = exprStr(call.Args[1]), exprStr(call.Args[0])
 					}
 					if sc.last == "StartGroup" && len(call.Args) == 3 {
-						sc.wg = exprStr(call.Args[1])
+						sc.wg, sc.ctx = exprStr(call.Args[1]), exprStr(call.Args[0])
 					}
 				}
 				senders = append(senders, sc)
@@ -537,6 +538,17 @@ func checkPipe(c *Ctx, f *Func, v types.Object, name string) {
 			}
 		case "B":
 			good++
+			// P2c: the waiter-then-closer must run under the hook's own context, not
+			// under the workers' cancellable one (WaitGroup.Wait returns as soon as its
+			// context ends, so the pipe would be closed with workers still in flight)
+			if cctx, ok := closerContext(c, f, cu.Node); ok {
+				for _, s := range senders {
+					if s.ctx != "" && s.ctx == cctx {
+						R.Fail("P2", at, p.Position(cu.Node.Pos()), fmt.Sprintf("the operation that waits for %s and then closes %s is started with %s, the same cancellable context the workers run under: when the group is aborted (that context is cancelled) WaitGroup.Wait returns at once and the pipe is closed — and exhaustion reported, errors resolved — while workers are still processing their in-flight items", cu.WG, name, cctx))
+						return
+					}
+				}
+			}
 			for _, s := range senders {
 				if (s.last != "Add" && s.last != "StartGroup") || s.wg != cu.WG {
 					R.Fail("P2", at, p.Position(s.expr.Pos()), fmt.Sprintf("%s is closed when wait group %s drains, but the sending chain `%s` is not started with Add/StartGroup on %s (it ends in .%s on %q): the channel can be closed while that sender is still running, or never", name, cu.WG, trunc(exprStr(s.expr), 80), cu.WG, s.last, s.wg))
@@ -721,4 +733,38 @@ func ruleP3(c *Ctx) {
 		})
 		R.Check(ok, "P3", "fun.Producer.IteratorWithHook", p.Position(f.Pos()), "hook, then the original cancel", "IteratorWithHook's close function must run the hook and then the iterator's own cancel function")
 	}
+}
+
+// closerContext finds the context argument with which the chain that carries
+// the close (…PostHook(pipe.Close).Background(X)) is started.
+func closerContext(c *Ctx, f *Func, ref ast.Node) (string, bool) {
+	p := c.P
+	// climb to the outermost call of the chain
+	var outer *ast.CallExpr
+	for x := p.Parent(ref); x != nil; x = p.Parent(x) {
+		switch t := x.(type) {
+		case *ast.CallExpr:
+			outer = t
+			continue
+		case *ast.SelectorExpr, *ast.ParenExpr, *ast.FuncLit, *ast.BlockStmt, *ast.ExprStmt:
+			if _, isStmt := t.(*ast.ExprStmt); isStmt {
+				goto done
+			}
+			if _, isBlk := t.(*ast.BlockStmt); isBlk {
+				// the close sits inside a literal handed to PostHook: keep climbing from the literal
+				continue
+			}
+			continue
+		}
+		break
+	}
+done:
+	if outer == nil || len(outer.Args) == 0 {
+		return "", false
+	}
+	switch selName(outer) {
+	case "Background", "Run", "Launch", "Signal", "Add":
+		return exprStr(outer.Args[0]), true
+	}
+	return "", false
 }
